@@ -13,7 +13,7 @@ AllClasses == {"valid", "badlen", "badserial", "serial0", "badcode", "badproto",
 SomeClasses == {"valid", "badlen", "badserial", "badcode"}
 StrayCls == {"badlen", "badserial", "serial0", "badcode", "malformed"}
 Stray2 == {"badserial", "badcode"}
-Faults == {"silence", "refused", "reset", "blackhole", "slowstall"}
+Faults == {"silence", "refused", "reset", "closed", "blackhole", "slowstall"}
 Faults2 == {"silence", "refused"}
 \* script-generation groups (every call its own controller, except the C08 groups)
 G2bcast == [a |-> [path |-> "bcast", kind |-> "normal", ctl |-> "S1"], b |-> [path |-> "bcast", kind |-> "status", ctl |-> "S2"]]
